@@ -382,7 +382,7 @@ func genTree(t *rapid.T, l Layout, now int64, allowMismatch bool) []TreeFile {
 					fl = subtleLayoutVariant(l)
 				}
 			}
-			files = append(files, TreeFile{Dir: d, Name: fmt.Sprintf("f%d.wsp", i+1), Spec: FileSpec{L: fl, Writes: genWrites(t, fl, now, valDyadic, 15)}, Link: rapid.IntRange(0, 9).Draw(t, "symlink") == 0})
+			files = append(files, TreeFile{Dir: d, Name: fmt.Sprintf("f%d.wsp", i+1), Spec: genSpec(t, fl, now, valDyadic, 15), Link: rapid.IntRange(0, 9).Draw(t, "symlink") == 0})
 		}
 	}
 	return files
@@ -453,6 +453,25 @@ func genC10(t *rapid.T) C10Case {
 		for i := 0; i < n; i++ {
 			c.Files = append(c.Files, TreeFile{Dir: d, Name: fmt.Sprintf("h%03d.wsp", i), Spec: FileSpec{L: l, Fill: 1 + int64(i%5), FillBase: F64(float64(i) / 8)}})
 		}
+	}
+	if rapid.IntRange(0, 24).Draw(t, "thresholdWindow") == 0 {
+		// windows of exactly 1024, 2048, ... slots (and the other sizes at which plausible block / chunk buffers
+		// end): 2-4 files of one archive, each filled over a different part of it
+		n := rapid.SampledFrom(thresholdSizes).Draw(t, "slots") + rapid.Int64Range(0, 1).Draw(t, "slotsJitter")
+		tl := Layout{Archives: []Arch{{Step: 1, Points: n}}, Method: l.Method, XFF: l.XFF}
+		if rapid.Bool().Draw(t, "twoArchives") {
+			tl.Archives = append(tl.Archives, Arch{Step: 2, Points: n})
+		}
+		c.Files = nil
+		nf := rapid.IntRange(2, 4).Draw(t, "thresholdFiles")
+		for i := 0; i < nf; i++ {
+			fill := n
+			if i != 1 {
+				fill = rapid.Int64Range(1, n).Draw(t, "filled")
+			}
+			c.Files = append(c.Files, TreeFile{Dir: "s1", Name: fmt.Sprintf("f%d.wsp", i+1), Spec: FileSpec{L: tl, Fill: fill, FillBase: F64(float64(i*1000) + 0.125)}})
+		}
+		l = tl
 	}
 	c.ItemPattern, c.SrcPattern = genTreePatterns(t, c.Files)
 	c.From, c.Until = genCLIWindow(t, l, now)
